@@ -157,7 +157,7 @@ Op_Denote(t) ==
        [] c = "BatchRepeat" -> T_Repeat(D(1), t.ks \o <<1, 1>>)
        [] c = "Cat" -> T_Cat(Ds, t.ks[1])
        [] c = "InterpLeft" -> LET K == D(1) IN T_MatMul(Op_InterpW(t.ts[1], t.ts[2], T_Last2(K.shape)), K)
-       [] c = "Interp" ->
+       [] c \in {"Interp", "InterpI32"} ->
             LET K == D(1)
                 Wl == Op_InterpW(t.ts[1], t.ts[2], T_Last2(K.shape))
                 Wr == Op_InterpW(t.ts[3], t.ts[4], T_Last(K.shape))
@@ -207,7 +207,7 @@ Op_Size(t) ==
        [] c = "Cat" ->
             LET r == Len(Ss[1]) p == T_Dim(r, t.ks[1])
             IN [Ss[1] EXCEPT ![p] = T_SumSeq([i \in 1..Len(Ss) |-> Ss[i][p]])]
-       [] c = "Interp" -> T_DropLast(T_DropLast(t.ts[1].shape)) \o <<T_Last2(t.ts[1].shape), T_Last2(t.ts[3].shape)>>
+       [] c \in {"Interp", "InterpI32"} -> T_DropLast(T_DropLast(t.ts[1].shape)) \o <<T_Last2(t.ts[1].shape), T_Last2(t.ts[3].shape)>>
        [] c = "InterpLeft" -> T_DropLast(T_DropLast(t.ts[1].shape)) \o <<T_Last2(t.ts[1].shape), T_Last(S(1))>>
        [] c = "Masked" -> T_Batch(S(1)) \o <<T_SumSeq(t.ts[1].data), T_SumSeq(t.ts[2].data)>>
        [] c = "Perm" -> sq(T_DropLast(t.ts[1].shape), T_Last(t.ts[1].shape))
